@@ -202,6 +202,12 @@ static void run_graph(char *gspec, char **bad, int nbad, char **nohook, int nnoh
         } else if (out && strstr(out, "non-existent module")) printf(" why=nonexistent");
         else if (out && outl) printf(" why=other");
         else printf(" why=-");
+        /* what was printed, for a reading that does not depend on the wording (vlib/eng_module.py) */
+        printf(" said=");
+        if (out && outl) {
+            size_t k, lim = outl < 600 ? outl : 600;
+            for (k = 0; k < lim; k++) printf("%02x", (unsigned char)out[k]);
+        } else printf("=");
     }
     printf(" events");
     if (ev) {
